@@ -667,8 +667,8 @@ Section Steps.
       destruct (apply_cluster_changes S supplier cfg st sup) as [[[[st1 ta] td]|] sup1] eqn:E; cbn [fst].
       + destruct (apply_inv _ _ _ _ _ _ _ HI Hd Hs E) as (H1 & H2 & H3 & _). tauto.
       + split; [exact HI | split; [lia | tauto]]. }
-    destruct o as [cfg|name id|name id s1 term leader ens|cfg]; cbn [step req_op] in *;
-      [exact (Happly cfg Hdom Hsum) | | | exact (Happly cfg Hdom Hsum)].
+    destruct o as [cfg|name id|name id s1 term leader ens|cfg|cfg]; cbn [step req_op] in *;
+      [exact (Happly cfg Hdom Hsum) | | | exact (Happly cfg Hdom Hsum) | cbn [fst]; split; [exact HI | split; [lia | tauto]]].
     - destruct (find_shard name id st) as [m|] eqn:Ef; cbn [fst]; [|split; [exact HI | split; [lia | tauto]]].
       destruct (is_deleting (m_st m)) eqn:Ed; cbn [fst]; [|split; [exact HI | split; [lia | tauto]]].
       destruct (delete_inv _ _ _ _ HI Ef Ed) as (H1 & H2 & H3). rewrite H2.
